@@ -13,9 +13,9 @@ FS = {
  "C03": "Proved: the free-entry scan only returns in-range zero entries; data clusters map inside the data area. Oracle: independent structural checker after every call that wrote.",
  "C04": "Proved: data-cluster writes land inside the data area; no slack FAT entry is ever allocated. Oracle: region classification of every block write against the pre-write medium.",
  "C05": "Proved: the scan finds the FIRST free entry and makes progress. Oracle: used-set == reachable-set when quiescent; fill/delete/refill cycles accept exactly free x cluster bytes.",
- "C06": "Proved: one block's listing = valid slots before the end marker in order; lookup = first match; deleted slots hidden. Oracle: independent reader's live-entry list of the same directory at that moment.",
- "C07": "Proved: the mode-variant table and the set of creating modes. Oracle: decision table over six modes x {missing,file,read-only,directory,open} x names, refusals must not write.",
- "C08": "Proved: handle freshness inside the 2^32 window (and its refutation beyond: known finding), generator step, closing frees exactly one slot and invents none. Oracle: handle bookkeeping on the implementation's results.",
+ "C06": "PROVED in full for the model (C06_iterate, C06_find, C06_find_listed, C06_open_dir): listing = exactly the valid slots before the end marker in on-disk order over any chain; lookup = first match; open_dir succeeds exactly for listed directory entries and designates the entry's cluster. Oracle: independent reader's live-entry list of the same directory at that moment.",
+ "C07": "PROVED in full for the model: decision tables of open_file_in_dir, delete, mkdir, open_dir, write on a read-only handle, with 'a refusal only reads' (C07_open_refusals, C07_open_existing_keep/_truncate, C07_open_create, C07_delete_refusals, C07_mkdir_refusals, C07_open_dir_typing, C07_write_read_only). Oracle: decision table over six modes x {missing,file,read-only,directory,open} x names, refusals must not write.",
+ "C08": "PROVED in full for the model: C08_fresh (+ C08_wrap_refuted_state: known finding), C08_stale_* for every call (C08_root_stale_refuted: known finding), C08_limits for every op with C08_limit_errors, C08_volume_rules, C08_close_*_frees, C08_query_truthful, C08_reentrant (LockError, whole state unchanged). Oracle: handle bookkeeping on the implementation's results.",
  "C09": "Proved: distinct clusters never share a block (bystander frame). Oracle: the flushed file is looked up by an independent reader on every later write prefix.",
  "C10": "Proved: only free entries are ever taken by allocation. Oracle: independent crash checker on every write prefix, free clusters pre-dirtied.",
  "C11": "Proved: bind propagates errors. Oracle: a call during which a device call failed returns an error; no duplicate names; script keeps running.",
@@ -47,7 +47,7 @@ for pid, e in extra.items():
         add(pid, e["engine"], e["category"], e["text"], e["note"], e["technique"], "DESIGN.md 4 " + pid)
 for pid, t in FS.items():
     if pid in ready:
-        add(pid, "coq-fs", "other", FS_TEXT % (pid, t), FS_NOTE,
+        add(pid, "coq-fs", ("proof" if pid in ("C06", "C07", "C08") else "other"), FS_TEXT % (pid, t), FS_NOTE,
             "Coq lemmas about a Gallina model of the volume manager + trace-exact model/implementation correspondence + spec oracle on the implementation", "DESIGN.md 4 " + pid)
 checks.sort(key=lambda c: c["property_id"])
 claimed = {c["property_id"] for c in checks}
